@@ -513,6 +513,35 @@ func VH_RoundTrip() {
 			sr.Keys = append(sr.Keys, vPlain("key", 1+vChoose("keylen", 2)))
 		}
 		r = sr
+	case 2: // long strings: each within Build's limits, together several kB of string buffer
+		long := func(prefix string, n int) string {
+			b := make([]byte, n)
+			copy(b, prefix)
+			for i := len(prefix); i < n; i++ {
+				b[i] = "abcdefghijklmnopqrstuvwxyz"[i%26]
+			}
+			return string(b)
+		}
+		tail := vPlain("tail", 1)
+		switch vChoose("combo", 5) {
+		case 0:
+			r = &rule.SyscallRule{Type: rule.AppendSyscallRuleType, List: "exit", Action: "always", Syscalls: []string{"open"},
+				Filters: []rule.FilterSpec{{Type: rule.ValueFilterType, LHS: "path", Comparator: "=", RHS: long("/zzverif/p", 2999) + tail}, {Type: rule.ValueFilterType, LHS: "exe", Comparator: "=", RHS: long("/zzverif/e", 1097)}}}
+		case 1:
+			r = &rule.SyscallRule{Type: rule.AppendSyscallRuleType, List: "exit", Action: "always", Syscalls: []string{"open"},
+				Filters: []rule.FilterSpec{{Type: rule.ValueFilterType, LHS: "path", Comparator: "=", RHS: long("/zzverif/p", 4095) + tail}}}
+		case 2:
+			r = &rule.SyscallRule{Type: rule.AppendSyscallRuleType, List: "exit", Action: "never", Syscalls: []string{"59"},
+				Filters: []rule.FilterSpec{{Type: rule.ValueFilterType, LHS: "exe", Comparator: "!=", RHS: long("/zzverif/e", 2048)}, {Type: rule.ValueFilterType, LHS: "path", Comparator: "=", RHS: long("/zzverif/q", 2047) + tail}}, Keys: []string{long("key", 255)}}
+		case 3:
+			r = &rule.FileWatchRule{Type: rule.FileWatchRuleType, Path: long("/zzverif/w", 3999) + tail, Permissions: []rule.AccessType{rule.WriteAccessType}, Keys: []string{long("k", 100)}}
+		case 4:
+			sr := &rule.SyscallRule{Type: rule.AppendSyscallRuleType, List: "exit", Action: "always", Syscalls: []string{"open"}}
+			for i := 0; i < 20; i++ {
+				sr.Filters = append(sr.Filters, rule.FilterSpec{Type: rule.ValueFilterType, LHS: "subj_user", Comparator: "=", RHS: long("u", 249) + tail})
+			}
+			r = sr
+		}
 	case 1: // a file watch
 		fw := &rule.FileWatchRule{Type: rule.FileWatchRuleType, Path: []string{"/etc/passwd", "/etc", "/zzverif/" + vPlain("leaf", 1+vChoose("leaflen", 2)), "/", "/etc/"}[vChoose("path", 5)]}
 		for i := len("/zzverif/"); i < len(fw.Path); i++ {
